@@ -1,6 +1,8 @@
 package vc
 
 import (
+	"sync"
+	"hash/fnv"
 	"os"
 	"fmt"
 	"go/token"
@@ -114,6 +116,10 @@ func (c *VCtx) embedAddr(base *Term, structT types.Type, field string, ft types.
 	is := c.declareFun(inv, []Sort{SRef}, SRef)
 	if !strings.Contains(base.S, "q!") {
 		c.fact(T(SBool, fmt.Sprintf("(and (= (%s (%s %s)) %s) (not (= (%s %s) null)))", is, s, base.S, base.S, s, base.S)))
+	} else if !c.declSet["embedinj:"+fn] {
+		// the address of an embedded struct of a quantified object: the general (one-directional) injectivity axiom
+		c.declSet["embedinj:"+fn] = true
+		c.facts0(T(SBool, fmt.Sprintf("(forall ((x Ref)) (! (and (= (%s (%s x)) x) (not (= (%s x) null))) :pattern ((%s x))))", is, s, s, s)))
 	}
 	t := TG(SRef, types.NewPointer(ft), fmt.Sprintf("(%s %s)", s, base.S))
 	info := &embedInfo{base: base, path: []string{field}, typ: ft, chain: []embedLink{{base, structT}}}
@@ -307,6 +313,9 @@ func (c *VCtx) freshRef(st *State, prefix string) *Term {
 	if prefix == "new" {
 		c.allFresh = append(c.allFresh, r)
 	}
+	if prefix == "new" || prefix == "chan" {
+		c.freshKeys = append(c.freshKeys, r)
+	}
 	return r
 }
 
@@ -443,6 +452,8 @@ func (c *VCtx) execInstr(fr *Frame, st *State, in ssa.Instruction, incoming map[
 		r := c.freshRef(st, "chan")
 		r.GT = x.Type()
 		c.fact(Not(c.isClosed(st, r)))
+		// where the channel was made never changes (madein(ch, "Func") in contracts)
+		c.fact(Eq(c.chanSite(r), IntLit(siteID(FuncKey(fr.fn)))))
 		fr.env[x] = r
 	case *ssa.MakeClosure:
 		fv := &FnVal{Fn: x.Fn.(*ssa.Function)}
@@ -1205,4 +1216,26 @@ func (c *VCtx) externalMods(cc *ssa.CallCommon) map[string]Sort {
 		}
 	}
 	return mods
+}
+
+// chanSite(ch): identifies the function whose make(chan) created ch (an immutable attribute of the channel).
+func (c *VCtx) chanSite(ch *Term) *Term {
+	fn := c.declareFun("chansite", []Sort{SRef}, SInt)
+	return T(SInt, fmt.Sprintf("(%s %s)", fn, ch.S))
+}
+
+var siteIDs = map[int64]string{}
+var siteMu sync.Mutex
+
+func siteID(key string) int64 {
+	siteMu.Lock()
+	defer siteMu.Unlock()
+	h := fnv.New64a()
+	h.Write([]byte(key))
+	id := int64(h.Sum64()>>2) + 1
+	if prev, ok := siteIDs[id]; ok && prev != key {
+		panic("chansite id collision between " + prev + " and " + key)
+	}
+	siteIDs[id] = key
+	return id
 }
